@@ -118,6 +118,41 @@ def gAkasetOp (ts : Array String) : String :=
     | _ => "panic"
   | _, _ => "bad-args"
 
+def gAkamacOp (ts : Array String) : String :=
+  match (ts[1]?).bind parseX, (ts[2]?).bind parseX with
+  | some key, some wire =>
+    match Gen.eap.EAP.Unmarshal {} wire with
+    | .ok e => gresStr xhex ((Gen.eap.EAP.CalcEapAkaPrimeAtMAC Prims.real e key).map (·.2))
+    | .err => "err"
+    | .fault => "panic"
+  | _, _ => "bad-args"
+
+def gAkamacBuiltOp (ts : Array String) (withState : Bool) : String :=
+  match (ts[1]?).bind parseX, Sx.parseTokens ts 2 with
+  | some key, some (s, _) =>
+    match gRdEap s with
+    | some (.ok e) =>
+      let r := Gen.eap.EAP.CalcEapAkaPrimeAtMAC Prims.real e key
+      if withState then
+        -- the model reports the packet after the call also when the call fails
+        match r with
+        | .ok (e', m) => "ok " ++ xhex m ++ " " ++ (sxEap (GenAbs.absEap e')).toStr
+        | .err => "unsupported"
+        | .fault => "unsupported"
+      else gresStr xhex (r.map (·.2))
+    | some .err => "set-refused"
+    | some .fault => "panic"
+    | none => "bad-eap"
+  | _, _ => "bad-args"
+
+def gAkaPrfOp (ts : Array String) : String :=
+  match (ts[1]?).bind parseX, (ts[2]?).bind parseX, (ts[3]?).bind parseX with
+  | some ik, some ck, some id =>
+    gresStr (fun (k : Bytes × Bytes × Bytes × Bytes × Bytes) =>
+        xhex k.1 ++ " " ++ xhex k.2.1 ++ " " ++ xhex k.2.2.1 ++ " " ++ xhex k.2.2.2.1 ++ " " ++ xhex k.2.2.2.2)
+      (Gen.eap.EapAkaPrimePRF Prims.real ik ck id)
+  | _, _, _ => "bad-args"
+
 def gDecEapOp (name : String) (b : Bytes) : Option String :=
   if name == "eap" then some (gresStr (fun e => (sxEap e).toStr) ((Gen.eap.EAP.Unmarshal {} b).map GenAbs.absEap))
   else if name == "eapm-ID" then
@@ -171,6 +206,9 @@ def gHandle (line : String) : String :=
     else if op == "enc" then
       if h2 : 1 < ts.size then (if ts[1] == "msg" then gEncMsgOp ts else if ts[1] == "eap" then gEncEapOp ts else "unsupported") else "bad-op"
     else if op == "akaset" then gAkasetOp ts
+    else if op == "akamac" then gAkamacOp ts
+    else if op == "akamac-built" then gAkamacBuiltOp ts false
+    else if op == "akaprf" then gAkaPrfOp ts
     else if op == "reenc" then
       if h3 : ts.size = 3 then
         match parseX ts[2] with
